@@ -344,9 +344,11 @@ def is_affine_st(A: Affine, tol: float = 1e-10) -> bool:
     :return: ``True`` if Affine transform has scale and translation components only
     :return: ``False`` if there is non-zero rotation or skew
     """
-    (_, wx, _, wy, _, _, *_) = A
+    (sx, wx, _, wy, sy, _, *_) = A
+    # tolerance is relative to the scale: pixels can be 1e-5 degrees or 1e+3 metres across
+    tol = tol * max(abs(sx), abs(sy))
 
-    return abs(wx) < tol and abs(wy) < tol
+    return abs(wx) <= tol and abs(wy) <= tol
 
 
 def snap_affine(
